@@ -33,7 +33,8 @@ def build_program(bdir, name, init='pattern'):
         san = [x for x in san if 'trivial-auto-var-init' not in x]      # locals keep whatever the stack held: stale data persists between calls
     if init == 'zero':
         san.append('-enable-trivial-auto-var-init-zero-knowing-it-will-be-removed-from-clang')
-    base = ['clang', '-std=gnu99', '-O1', '-g', '-w'] + san + inc
+    # the build without auto-initialised locals is also the one without optimisation (the project's default CMake build)
+    base = ['clang', '-std=gnu99', '-O0' if init == 'none' else '-O1', '-g', '-w'] + san + inc
     ren = ['-D' + r for r in RENAMES]
     cmds, objs = [], []
     o = os.path.join(d, 'ex_wrap.o')
